@@ -14,8 +14,21 @@ def main():
     a = ap.parse_args()
     seed = int(os.environ.get("VERIF_SEED", "0") or 0)
     import core
+    cov = None
+    if os.environ.get("GSV_COVERAGE"):
+        # development aid: which lines / branches of gstools do this check's harnesses reach?  (vlib/covreport.py combines)
+        import coverage
+        os.makedirs(os.environ["GSV_COVERAGE"], exist_ok=True)
+        cov = coverage.Coverage(data_file=os.path.join(os.environ["GSV_COVERAGE"], f".coverage.{a.prop}.{seed}"),
+                                source=[core.SRC], branch=True)
+        cov.start()
     try:
-        rc = core.run_check(a.prop, a.tier, seed, a.replay)
+        try:
+            rc = core.run_check(a.prop, a.tier, seed, a.replay)
+        finally:
+            if cov is not None:
+                cov.stop()
+                cov.save()
     except SystemExit:
         raise
     except BaseException:
